@@ -254,12 +254,15 @@ TraceSanRead == /\ IsEvent("sanread")
 
 TraceAcc == /\ IsEvent("acc")
   /\ LET r == Recs[l]  b == pos.b IN
-     IF ~EXT THEN Obs({}) ELSE
-     Obs(IF_(\E k \in 1..6 : SetOfSeq(r.pieces[k]) # {s \in Sq : KindOf(b[s]) = k}, {<<"EXT", "pieces-accessor">>})
-         \cup IF_(\E c \in 0..1 : SetOfSeq(r.colors[c+1]) # Own(b, c), {<<"EXT", "colors-accessor">>})
-         \cup IF_(\E c \in 0..1, k \in 1..6 : SetOfSeq(r.cp[6*c + k]) # PiecesOf(b, c, k), {<<"EXT", "colored-pieces-accessor">>})
-         \cup IF_(SetOfSeq(r.occ) # Occ(b), {<<"EXT", "occupied-accessor">>})
-         \cup IF_(usable /\ \E c \in 0..1 : r.kings[c+1] # KingSq(b, c), {<<"EXT", "king-accessor">>}))
+     \* the bitboard accessors are the placement as most callers see it: in a C02 run a disagreement with the (rule-checked)
+     \* projection is a wrong placement of the successor; elsewhere it is a note
+     LET tg == IF C02 THEN "C02" ELSE "EXT" IN
+     IF ~EXT /\ ~C02 THEN Obs({}) ELSE
+     Obs(IF_(\E k \in 1..6 : SetOfSeq(r.pieces[k]) # {s \in Sq : KindOf(b[s]) = k}, {<<tg, "pieces-accessor">>})
+         \cup IF_(\E c \in 0..1 : SetOfSeq(r.colors[c+1]) # Own(b, c), {<<tg, "colors-accessor">>})
+         \cup IF_(\E c \in 0..1, k \in 1..6 : SetOfSeq(r.cp[6*c + k]) # PiecesOf(b, c, k), {<<tg, "colored-pieces-accessor">>})
+         \cup IF_(SetOfSeq(r.occ) # Occ(b), {<<tg, "occupied-accessor">>})
+         \cup IF_(usable /\ \E c \in 0..1 : r.kings[c+1] # KingSq(b, c), {<<tg, "king-accessor">>}))
 
 \* a TLC-generated position (Mode C) that the library refused although the specification calls it sound
 \* (no listed property obliges the library to accept unreachable positions: informational only)
